@@ -889,6 +889,7 @@ def wWorld : World Nat where
   indexable := fun _ => false           -- a set
   pairs := fun v => if v == 5 then [(1, 2)] else []
   ofList := fun _ => 9
+  ofTuple := fun _ => 9
   ofPairs := fun _ => 9
   construct := fun t v => if t == 3 then raise (builtinExc K.typeError) else pure v   -- unhashable items
   insertKey := fun _ => raise (builtinExc K.typeError)                                -- unhashable key
